@@ -1,12 +1,22 @@
 (* C09 — reference / reference_mut resolve a path to exactly its node.  Statements only. *)
 From Coq Require Import List NArith ZArith Bool.
-From JP Require Import Base Ast Eval ValueModel Spec NormPath Known Build Concrete Reference.
+From JP Require Import Base Ast Eval ValueModel Spec NormPath Known Build Concrete Reference NpParse NpBuild StringLevel.
 Import ListNotations.
 
-(* the full statement, at string level (needs the parser's round trip on Normalized Paths: not proved) *)
+(* the full statement, at string level (false of the code for names that need escaping: D6) *)
 Definition C09_full_statement : Prop :=
   forall d l, wf_json d = true ->
   m_reference (np l) d = match lookup d l with Some v => Some (l, v) | None => None end.
+
+(* proved at string level, through the generated grammar and parser.rs: for every document and
+   every location whose names are made of Unicode scalar values that need no escaping (outside:
+   known class D6) and whose indices are below 2^53, reference(np l) is exactly the node at l when
+   it exists and None when it does not *)
+Theorem C09_reference_string_partial : forall d l,
+  Forall plain_step l -> Forall step_in_range l ->
+  m_reference (np l) d = match lookup d l with Some v => Some (l, v) | None => None end.
+Proof. exact reference_np_string. Qed.
+Print Assumptions C09_reference_string_partial.
 
 (* proved, at AST level, for every document and every location whose names need no escaping
    (outside: known class D6): the Normalized Path of a location resolves to exactly that node
